@@ -1345,6 +1345,22 @@ def rule_rio_layout(prog: Program) -> List[Instance]:
         else:
             var = [sd for sd in sides if not any(isinstance(x, ast.Call) for x in ast.walk(sd))]
             out.append(Instance("R-GUARDSEQ", cid, BAD, f"default overviews are dropped under `{short(e)}`, a threshold that varies with `{short(var[0]) if var else short(e)}`: the documented rule is none below 512 pixels, the requested pyramid otherwise", w.where(n)))
+    # (a'') windowed writes: every block window of the destination is written - the write call is reached on
+    # every path through the loop body (no continue / break / conditional skip)
+    for nf in [w] + list(w.nested.values()):
+        for lp in (n for n in walk_own(nf.node) if isinstance(n, ast.For) and any(isinstance(c, ast.Call) and call_name(c) == "block_windows" for c in ast.walk(n.iter))):
+            writes = [c for c in ast.walk(lp) if isinstance(c, ast.Call) and isinstance(c.func, ast.Attribute) and c.func.attr == "write" and any(k.arg == "window" for k in c.keywords)]
+            cid = f"{nf.qual}#every-window-written"
+            if not writes:
+                out.append(Instance("R-GUARDSEQ", cid, BAD, "loop over block_windows() without a windowed write", nf.where(lp)))
+                continue
+            wst = enclosing_stmt(writes[0])
+            top_level = wst in lp.body
+            skips = [x for st in lp.body for x in ast.walk(st) if isinstance(x, (ast.Continue, ast.Break)) and (x.lineno < wst.lineno)]
+            ok = top_level and not skips
+            out.append(Instance("R-GUARDSEQ", cid, OK if ok else BAD,
+                                "every block window is written (the write is unconditional in the loop body)" if ok else
+                                f"the windowed write `{short(writes[0], 50)}` is skipped on some iterations ({'continue/break before it' if skips else 'it sits under a condition'}): windows left unwritten read back as GDAL's default, not as the array's values", nf.where(writes[0])))
     # (b)
     f = prog.func("cog._rio:write_cog_layers")
     org = Origins(f)
